@@ -367,7 +367,7 @@ func genShadowK(r *rand.Rand, regOnly bool, retShadow bool) cpuCase {
 			// a chain of multiplications delays the condition a little
 			g.emit("mul %s, %s, %s", c, g.srcReg(), g.srcReg())
 			g.emit("sub %s, %s, %s", c, c, c)
-		} else if slow && !regOnly && r.Intn(2) == 0 {
+		} else if slow && !regOnly && r.Intn(3) != 0 {
 			// the branch reads the loaded value itself (issued with forwarding right behind the load); taken or not by data
 			g.emit("lw %s, %d(%s)", c, r.Intn(48)*4, g.breg())
 			g.emit("%s %s, %s", []string{"bnez", "beqz", "bnez"}[r.Intn(3)], c, l)
@@ -393,7 +393,7 @@ func genShadowK(r *rand.Rand, regOnly bool, retShadow bool) cpuCase {
 		}
 		// the shadow: never executed architecturally
 		sh := 1 + r.Intn(4)
-		if slow && !regOnly && !retShadow && r.Intn(4) == 0 {
+		if slow && !regOnly && !retShadow && r.Intn(2) == 0 {
 			// a long-latency wrong-path instruction FOLLOWED by a wrong-path jump elsewhere: the jump proposes a flush
 			// while the older branch is still unresolved and the wrong-path load is still in flight
 			g.emit("lw %s, %d(%s)", g.reg(), r.Intn(48)*4, g.breg())
